@@ -58,7 +58,9 @@ fn build_file(inp: &Value, timing: &[Value], rng: &mut Rng, shift: i64) -> Strin
     for o in geta(inp, "objs") {
         let id = geti(o, "id");
         let x = id * 10;
-        let t = geti(o, "t") + shift;
+        let tn = geti(o, "t") + shift;
+        // `-0` is a spelling of the time 0
+        let t: String = if tn == 0 && rng.chance(1, 3) { "-0".into() } else { format!("{tn}") };
         let nc = if getb(o, "nc") { 4 } else { 0 };
         let spec = getb(o, "spec");
         let (bank, vol, cu) = (geti(o, "bank"), geti(o, "vol"), geti(o, "cu"));
@@ -71,8 +73,8 @@ fn build_file(inp: &Value, timing: &[Value], rng: &mut Rng, shift: i64) -> Strin
                 // a straight line of the requested length; the slider's own bank info is banks only
                 format!("{x},100,{t},{},0,L|{}:100,{spans},{len},,,{}", 2 + nc, x + 300, if spec { format!("{bank}:0") } else { "0:0".into() })
             }
-            "spinner" => format!("256,192,{t},{},0,{},{bi}", 8 + nc, t + geti(o, "dur")),
-            _ => format!("{x},192,{t},128,0,{}:{bi}", t + geti(o, "dur")),
+            "spinner" => format!("256,192,{t},{},0,{},{bi}", 8 + nc, tn + geti(o, "dur")),
+            _ => format!("{x},192,{t},128,0,{}:{bi}", tn + geti(o, "dur")),
         };
         s.push_str(&line);
         s.push('\n');
